@@ -20,6 +20,7 @@ pub fn judge_case(ls: &LangSet, code: &str, n: u64, phrase: &str, cid: usize, f:
     let digits = n.to_string();
     let conj = spell::info(code).conj;
     let (text, expected) = in_context(cid, phrase, &digits, f, p, q, conj);
+    ls.polyglot_probe(code, phrase, &text);
     judge_roundtrip(api, phrase, &text, &expected, &digits, n as f64, false, cid == 0)
 }
 
